@@ -289,10 +289,19 @@ Definition agree_more (oi : option (input Q)) (vsd : Z) (vs bpvs : list zq)
    relative, |a - b| <= 1e-9 * |b|; a zero must be matched exactly. *)
 Definition close_rel (a b : Q) : bool :=
   Qle_bool (Qabs (a - b)) ((1 # 1000000000) * Qabs b).
-Definition covers_rel (A B : qcoo) : bool :=
+(* ... or, for entries that come out of a cancellation in floating point (full tensors on
+   non-orthogonal grids), within 1e-12 of the largest entry of the implementation's matrix *)
+Definition maxabs0 (M : qcoo) : Q :=
+  fold_right (fun t acc => let a := Qabs (snd t) in if Qle_bool a acc then acc else a) 0%Q M.
+Definition covers_rel_tol (tol : Q) (A B : qcoo) : bool :=
   forallb (fun t : nat * nat * Q =>
-             let r := fst (fst t) in let c := snd (fst t) in close_rel (entry A r c) (entry B r c)) A.
-Definition same_matrix_rel (A B : qcoo) : bool := covers_rel A B && covers_rel B A.
+             let r := fst (fst t) in let c := snd (fst t) in
+             close_rel (entry A r c) (entry B r c)
+             || Qle_bool (Qabs (entry A r c - entry B r c)) tol) A.
+Definition covers_rel (A B : qcoo) : bool := covers_rel_tol 0 A B.
+Definition same_matrix_rel (A B : qcoo) : bool :=
+  let tol := (1 # 1000000000000) * maxabs0 B in
+  covers_rel_tol tol A B && covers_rel_tol tol B A.
 
 (* for MPFA (whose matrices carry rounding noise where TPFA has exact zeros): tolerance
    relative to the largest entry of the matrix *)
